@@ -4,7 +4,7 @@ The prompt carries the text of the property only (nothing from /verif) plus one 
 import json, os, sys, glob, re
 rnd, out = int(sys.argv[1]), sys.argv[2]
 here = os.path.dirname(os.path.dirname(os.path.abspath(__file__)))
-tmpl = open('/tmp/seedprompts5/C03.txt').read()
+tmpl = open('/tmp/seedprompts5/C03.txt').read() if os.path.exists('/tmp/seedprompts5/C03.txt') else open(os.path.join(here, 'tools', 'seed_prompt_template.txt')).read()
 head, tail = tmpl.split('The property the library is supposed to satisfy:')[0], tmpl.split('Your task:')[1]
 task = 'Your task:' + tail.split('Additional guidance for this round:')[0]
 extra = tail.split('Look at other files or mechanisms')[1]
